@@ -7,10 +7,15 @@ import (
 	"path"
 	"path/filepath"
 	"strings"
+	"sync"
 )
 
 type fileStorage struct {
 	dirPath string
+
+	// Values are written by the goroutines of different connections. Two writers of one key
+	// would share the temporary file of that key.
+	writeMutex sync.Mutex
 }
 
 // NewTempFileStorage returns a new storage inside temporary folder.
@@ -38,6 +43,9 @@ func NewFileStorage(dir string) (Storage, error) {
 // The value is written to a temporary file which then replaces the file of the key.
 // If the process dies in between, the key still has its previous value.
 func (f *fileStorage) Set(key string, value []byte) error {
+	f.writeMutex.Lock()
+	defer f.writeMutex.Unlock()
+
 	path := f.filePathToFile(key)
 	tmp := path + ".tmp"
 
@@ -86,6 +94,9 @@ func (f *fileStorage) Get(key string) ([]byte, error) {
 
 // Delete removes the file for the corresponding key.
 func (f *fileStorage) Delete(key string) error {
+	f.writeMutex.Lock()
+	defer f.writeMutex.Unlock()
+
 	return os.Remove(f.filePathToFile(key))
 }
 
